@@ -263,31 +263,11 @@ func BuildSelect(query *Query, slct *sqlparser.Select) error {
 }
 
 func BuildUnion(query *Query, expr *sqlparser.Union) error {
-	leftStatement := expr.Left.(*sqlparser.Select)
-	leftStatement.With = expr.With
-	rightStatement := expr.Right.(*sqlparser.Select)
-	rightStatement.With = expr.With
-	left, err := Prepare(query.data, leftStatement, query.options)
+	leftDataArray, err := unionBranch(query, expr.Left, expr.With)
 	if err != nil {
 		return err
 	}
-	leftData, err := left.execAndPostProcess()
-	if err != nil {
-		return err
-	}
-	right, err := Prepare(query.data, rightStatement, query.options)
-	if err != nil {
-		return err
-	}
-	rightData, err := right.execAndPostProcess()
-	if err != nil {
-		return err
-	}
-	leftDataArray, err := AsArray(leftData)
-	if err != nil {
-		return err
-	}
-	rightDataArray, err := AsArray(rightData)
+	rightDataArray, err := unionBranch(query, expr.Right, expr.With)
 	if err != nil {
 		return err
 	}
@@ -296,13 +276,30 @@ func BuildUnion(query *Query, expr *sqlparser.Union) error {
 	slice = append(slice, leftDataArray...)
 	slice = append(slice, rightDataArray...)
 	query.from = slice
+	// the rows of the two branches are the rows of the union: every column is selected,
+	// UNION (without ALL) removes duplicates, and LIMIT applies to the combined rows
 	query.selectDefinition = sqlparser.SelectExprs{}
-	query.selectDefinition.Exprs = make([]sqlparser.SelectExpr, 0)
+	query.selectDefinition.Exprs = []sqlparser.SelectExpr{&sqlparser.StarExpr{}}
+	query.distinct = expr.Distinct
 	err = BuildLimit(query, expr.Limit)
 	if err != nil {
 		return err
 	}
 	return nil
+}
+
+// unionBranch evaluates one side of a UNION, which is a SELECT or, in a chain, another UNION.
+func unionBranch(query *Query, statement sqlparser.TableStatement, with *sqlparser.With) ([]any, error) {
+	statement.SetWith(with)
+	branch, err := Prepare(query.data, statement, query.options)
+	if err != nil {
+		return nil, err
+	}
+	data, err := branch.execAndPostProcess()
+	if err != nil {
+		return nil, err
+	}
+	return AsArray(data)
 }
 
 func BuildCte(query *Query, expr *sqlparser.With) error {
